@@ -99,3 +99,10 @@ claim("C03", EXPRJ,
       "the value miasm's simplifiers fold the constant expression to must be equal; BV.tla itself is checked exhaustively "
       "against integer arithmetic by BVTest.tla.",
       "TLC; wide widths are sampled (boundary + random), small widths exhaustive", "DESIGN.md 4.1, 5/C03", "ExprJudge")
+
+claim("C05", EXPRJ,
+      "Expr.tla is the reference meaning; every enumerated small tree (all valuations) and seeded random / rule-shaped trees at "
+      "widths 1..128 (boundary+random valuations, memory reads, both byte orders) are translated by TranslatorZ3, the z3 term is "
+      "evaluated under the valuation (identifiers substituted, memory selects replaced by the environment's bytes) and TLC "
+      "judges every recorded value; NotImplementedError = unsupported is legal, any other exception is a violation.",
+      "TLC; z3 as the evaluator of its own terms; operators outside Expr.tla are not generated", "DESIGN.md 5/C05", "ExprJudge")
